@@ -34,12 +34,65 @@ theorem flagged {s : Simp} (hs : SimpSound s) {o : Oracle} (ho : OracleSound o) 
     ⟨e, hm, hsat, hc⟩ | hb' | hd' | hf'
   · obtain ⟨hns, htag⟩ := herr e hm hsat
     rcases hc with ⟨h0, ho', hw, _, hW⟩ | ⟨r, hr⟩ | ht
-    · exact ⟨e, hm, hsat, htag, ⟨h0, ho', hw⟩, hW⟩
+    · exact ⟨e, hm, hsat, htag, ⟨h0, ho', hw⟩, hW.1⟩
     · exact absurd hr (hns r)
     · exact absurd htag ht
   · exact absurd hb hb'
   · rw [hd] at hd'; cases hd'
   · rw [hf] at hf'; cases hf'
+
+/-- **C10.flagged_calls.** The same for the frame-stack machine `runC` (message calls; `C01.sound_calls` for what it
+    models and the hypotheses): a run that raised no flag and in which `I` satisfies no error report and no tagged end
+    reports the concrete outcome of `I` — of the whole transaction, nested calls included — by an end whose path `I`
+    satisfies, with the storage maps of all modelled accounts describing the final world. -/
+theorem flagged_calls {s : Simp} (hs : SimpSound s) {o : Oracle} (ho : OracleSound o) (cfg : Cfg) (env : Env)
+    (codes : List (Nat × List Nat)) (this : Nat) (fuel : Nat) (p : Evm.Params) (w : Evm.World)
+    (hmem : cfg.maxMem + 32 ≤ p.memLimit) (hdep : 1024 ≤ p.maxDepth)
+    (hcodes : ∀ a, w.codeOf a = codeOf codes a)
+    (hcb : ∀ a prog, codeOf codes a = some prog → ∀ b ∈ prog, b < 256)
+    (hz : ∀ a, Modelled codes this a → C01.ZeroStorage w a)
+    (I : Interp) (hI : I.Std) (f0 : Evm.Frame)
+    (hR0 : R I env ((codeOf codes this).getD []) p initState f0) (hthis : f0.this = this) (hd0 : f0.depth = 0)
+    (n : Nat) (w' : Evm.World) (h : Evm.Halt) (hex : Evm.exec p n w f0 = some (w', h))
+    (hb : (runC s o cfg env codes this fuel).boundedLoops = [])
+    (hd : (runC s o cfg env codes this fuel).depthCut = false)
+    (hf : (runC s o cfg env codes this fuel).outOfFuel = false)
+    (herr : ∀ ce ∈ (runC s o cfg env codes this fuel).ends, Sat I ce.e.st.path →
+      (∀ r, ce.e.out ≠ .stuck r) ∧ ce.e.tag = .normal) :
+    ∃ ce ∈ (runC s o cfg env codes this fuel).ends, Sat I ce.e.st.path ∧ ce.e.tag = .normal ∧
+      (∃ h0, ce.e.out = .halt h0 ∧ haltWith h0 (ce.e.data.map (·.eval I)) = h) ∧
+      WRelM I (Modelled codes this) w w' (stoOf ce.stores) := by
+  rcases C02.complete_calls hs ho cfg env codes this fuel p w hmem hdep hcodes hcb hz I hI f0 hR0 hthis hd0 n w' h hex
+    with ⟨ce, hm, hsat, hc⟩ | hb' | hd' | hf'
+  · obtain ⟨hns, htag⟩ := herr ce hm hsat
+    rcases hc with ⟨h0, ho', hw, _, hW⟩ | ⟨r, hr⟩ | ht
+    · exact ⟨ce, hm, hsat, htag, ⟨h0, ho', hw⟩, hW.1⟩
+    · exact absurd hr (hns r)
+    · exact absurd htag ht
+  · exact absurd hb hb'
+  · rw [hd] at hd'; cases hd'
+  · rw [hf] at hf'; cases hf'
+
+/-- the two cuts of the frame-stack worklist loop raise their flag, exactly as in `cuts_flagged` -/
+theorem cuts_flagged_calls {s : Simp} {o : Oracle} {cfg : Cfg} {codes : List (Nat × List Nat)} (fuel steps : Nat)
+    (cs : CState) (wl : List CState) (acc : ResultC) :
+    (exploreC s o cfg codes 0 steps (cs :: wl) acc).outOfFuel = true ∧
+    (cfg.depth ≠ 0 ∧ steps + 1 > cfg.depth →
+      exploreC s o cfg codes (fuel + 1) steps (cs :: wl) acc =
+        exploreC s o cfg codes fuel (steps + 1) wl { acc with depthCut := true }) := by
+  refine ⟨rfl, fun hd => ?_⟩
+  rw [exploreC_succ, if_pos hd]
+
+/-- a call inside a loop: with `--loop 1` the second iteration is cut and the flag is raised; with `--depth 12` the
+    worklist is cut and the other flag is raised (caller: `loop: call(0x2000); if calldata[4] goto loop`) -/
+example :
+    (runC foldSimp exOracle { loop := 1 } exEnv
+      [(0x1000, [0x5b, 0x60, 0, 0x60, 0, 0x60, 0, 0x60, 0, 0x60, 0, 0x61, 0x20, 0x00, 0x60, 0, 0xf1, 0x50,
+                 0x60, 4, 0x35, 0x60, 0, 0x57, 0x00]), (0x2000, C01.calleeCode)] 0x1000 1000).boundedLoops ≠ [] ∧
+    (runC foldSimp exOracle { depth := 12 } exEnv
+      [(0x1000, [0x5b, 0x60, 0, 0x60, 0, 0x60, 0, 0x60, 0, 0x60, 0, 0x61, 0x20, 0x00, 0x60, 0, 0xf1, 0x50,
+                 0x60, 4, 0x35, 0x60, 0, 0x57, 0x00]), (0x2000, C01.calleeCode)] 0x1000 1000).depthCut = true := by
+  decide +kernel
 
 /-- the flags, once raised, are never lowered by the rest of the exploration; end states are never removed -/
 theorem flags_persist {s : Simp} {o : Oracle} {cfg : Cfg} {env : Env} {code : List Nat} {I : Interp}
